@@ -540,7 +540,9 @@ func runC09(c *Ctx) {
 	}
 	// times over the whole range of the field, with encode/decode steps in between: what is stored is the integer
 	wide := []int64{1<<53 + 1, 1<<53 - 1, 1 << 53, 1<<62 + 12345, math.MaxInt64, math.MaxInt64 - 1, 1000000000000000007, 1<<31 + 1, 1 << 32,
-		time.Now().Unix(), 4102444800, 253402300799, 253402300800, 999999999999999999}
+		time.Now().Unix(), 4102444800, 253402300799, 253402300800, 999999999999999999,
+		// the second whose time.Time is the zero Time (year 1): a time like any other, not "now"
+		-62135596800, -62135596799, -62135596801, 0, -1}
 	for i := 0; i < len(wide)*6; i++ {
 		var ops []rop
 		for j := 0; j < 2+c.Rng.Intn(4); j++ {
